@@ -5,8 +5,8 @@ CONSTANTS
   Nested <- MCNested
   W = 3
   NestedOrder = "decl"
-  FileOrder = "hash"
-  ItemOrder = "id"
+  FileOrder = "input"
+  ItemOrder = "hash"
 INVARIANT OutputIsFunctionOfInput
 PROPERTY Terminates
 CHECK_DEADLOCK FALSE
